@@ -436,6 +436,30 @@ class Tensor:
     def log1p(self):
         return (self + 1).log()
 
+    def new_zeros(self, *shape, dtype=None, device=None):
+        return zeros(*shape, dtype=dtype or self.dtype)
+
+    def new_empty(self, *shape, dtype=None, device=None):
+        return zeros(*shape, dtype=dtype or self.dtype)
+
+    def new_ones(self, *shape, dtype=None, device=None):
+        return ones(*shape, dtype=dtype or self.dtype)
+
+    def new_tensor(self, data, dtype=None, device=None):
+        return tensor(data, dtype=dtype or self.dtype)
+
+    def new_full(self, shape, fill, dtype=None, device=None):
+        return zeros(*shape, dtype=dtype or self.dtype) + fill
+
+    def addmv(self, m, v, beta=1, alpha=1):
+        return self * beta + mv(m, v) * alpha
+
+    def addmv_(self, m, v, beta=1, alpha=1):
+        return self._inplace(self * beta + mv(m, v) * alpha)
+
+    def fmod(self, o):
+        return fmod(self, o)
+
     def __getattr__(self, name):
         # (only reached for names the class does not define)
         if name.startswith("__") or name in ("a", "dtype", "grad", "_version", "requires_grad"):
@@ -1000,6 +1024,10 @@ def zeros_like(x, dtype=None):
     return zeros(*x.shape, dtype=dtype or x.dtype)
 
 
+def empty_like(x, dtype=None, device=None):
+    return zeros(*x.shape, dtype=dtype or x.dtype)
+
+
 def ones_like(x, dtype=None):
     return ones(*x.shape, dtype=dtype or x.dtype)
 
@@ -1384,8 +1412,21 @@ def remainder(x, y):
     return x._bin(y, lambda p, q: _map2(_rem, p, q), force_float=True)
 
 
+def _fmod(a, b):
+    if isinstance(a, Fraction) and isinstance(b, Fraction):
+        q = a / b
+        n = q.__floor__() if q >= 0 else -((-q).__floor__())  # truncation towards zero: the C convention (sign of the dividend)
+        return a - b * n
+    return S.fn("fmod", a, b)
+
+
 def fmod(x, y):
-    raise UnsupportedOp("torch.fmod is not modelled by symtorch")
+    x = x if isinstance(x, Tensor) else tensor(x)
+    return x._bin(y, lambda p, q: _map2(_fmod, p, q), force_float=True)
+
+
+def addmv(inp, m, v, beta=1, alpha=1, out=None):
+    return _write_out(inp * beta + mv(m, v) * alpha, out)
 
 
 def addcmul(x, t1, t2, value=1, out=None):
@@ -1633,7 +1674,7 @@ class Module:
 
         return OrderedDict((k, v.detach()) for k, v in self.named_parameters())
 
-    def load_state_dict(self, sd, strict=True):
+    def load_state_dict(self, sd, strict=True, assign=False):
         own = dict(self.named_parameters())
         missing = [k for k in own if k not in sd]
         unexpected = [k for k in sd if k not in own]
@@ -1650,8 +1691,12 @@ class Module:
             raise RuntimeError("Error(s) in loading state_dict: " + "; ".join(errs))
         for k, p in own.items():
             if k in sd:
-                p.a[...] = sd[k].a
-                p._version += 1
+                if assign:
+                    # torch wraps the given tensor as the new parameter: no copy, the storage is shared with the caller's tensor
+                    self._parameters[k] = Parameter(sd[k])
+                else:
+                    p.a[...] = sd[k].a
+                    p._version += 1
 
     def to(self, *a, **k):
         return self
